@@ -73,10 +73,18 @@ def check_power_formula(ctx, ck, rule='R-DEP.power-formula', pid_key='mininec.Ex
     if r is not None:
         e = fl.inline(r.value, fl.node_id_of(r))
         inner = real_part_of(e)
+        outer_coef = 1
+        if inner is None:
+            # c * Re(...) / d
+            po = product_of(e)
+            if len(po.num) == 1 and not po.den and real_part_of(po.num[0][1]) is not None:
+                inner = real_part_of(po.num[0][1])
+                outer_coef = po.coef
         if inner is None:
             why = 'returned value is not the real part of an expression: %s' % norm(e)
         else:
             p = product_of(inner)
+            p.coef = p.coef * outer_coef
             facs = [strip_conj(x) for _, x in p.num]
             names = sorted(norm(a) for a, c in facs)
             nconj = sum(1 for a, c in facs if c)
@@ -263,6 +271,11 @@ def run(ctx, ck):
         isinstance(a_idx[0].value, ast.Name) and a_idx[0].value.id == params[2] and \
         isinstance(a_par[0].value, ast.Name) and a_par[0].value.id == params[1]
     ck.ob('R-DEP.current-lookup', f.qual, ok, f.loc(), 'register(parent, pulse) stores both unchanged')
+
+    # coefficient of one source must not depend on the other sources (weight re-initialised per source)
+    from .C08 import check_weights
+    ck.rule('R-SIB.weight', 'source weight: -1j/m, doubled only for its own grounded pulse, recomputed per source')
+    check_weights(ctx, ck)
 
     # ------------------------------------------------------------------ D4 (shared with C10)
     from .C10 import check_dbi_normalisation
